@@ -254,8 +254,9 @@ PROPS = {
         'verus': [{'spec': 'resolve.spec'}],
         'search_groups': ['resolve'],
         'bounded_search': [('resolve', 'BOUNDED stand-in for the scope lookup and the TryResolve impls (iterator / String code outside both verifiers): the property statement itself on the real parser + resolver -- '
-                                       'resolve(module with references) == resolve(module with literals) -- for INTEGER ranges, SIZE ranges, fixed SIZE, DEFAULT over 6 placements (same module, sibling by name, sibling by OID, '
-                                       'OID-carrying sibling imported by name, missing module => Err, non-integer => Err) x decoy module (none / without OID / with OID) a chain of imports over two hops) x 6 load orders x a grid of bounds (incl. coinciding bounds and 0..MAX): 1050 module graphs')],
+                                       'resolve(module with references) == resolve(module with literals) -- for INTEGER ranges, SIZE ranges, fixed SIZE, DEFAULT over 8 placements (same module, sibling by name, sibling by OID, '
+                                       'OID-carrying sibling imported by name, missing module => Err, non-integer => Err, a chain of imports over two hops, two import clauses whose symbols differ only in case: types from one module, values from another) '
+                                       'x decoy module (none / without OID / with OID) x 6 load orders x a grid of bounds (incl. coinciding bounds and 0..MAX): 1200 module graphs')],
         'assumptions': [
             'WHICH declaration a name finds (ResolveScope::value_reference / definition / model_with_imported_item: local before imported, import matched by OID or name, independence of load order) is iterator/String code outside Verus; it is abstracted to the uninterpreted lookups lookup_value / lookup_definition (a Kani run over concrete module graphs does not terminate: measured 1500 s / 10 GB)',
             'Size::try_resolve and Size::reconsider_constraints ARE under contract (every bound is what the resolver yields, unresolvable => Err, result normalised like a literal SIZE); '
